@@ -581,10 +581,12 @@ impl InstrFormat for InstrFormat06 {
         }
     }
 
-    fn write_instr(&self, f: &mut BinWriter, _: &dyn Emitter, instr: &RawInstr) -> WriteResult {
-        f.write_i16(instr.time as _)?;
-        f.write_u8(instr.opcode as _)?;
-        f.write_u8(instr.args_blob.len() as _)?;
+    fn write_instr(&self, f: &mut BinWriter, emitter: &dyn Emitter, instr: &RawInstr) -> WriteResult {
+        use crate::llir::instr_header_field as field;
+        f.write_i16(field(emitter, "time", instr.time as i64)?)?;
+        // (the opcode is a signed byte, sign-extended by the reader)
+        f.write_i8(field(emitter, "opcode", instr.opcode as i16 as i64)?)?;
+        f.write_u8(field(emitter, "argument size", instr.args_blob.len() as i64)?)?;
         f.write_all(&instr.args_blob)?;
         Ok(())
     }
@@ -614,10 +616,11 @@ impl InstrFormat for InstrFormat07 {
         Ok(ReadInstr::Instr(RawInstr { time, opcode: opcode as _, param_mask, args_blob, ..RawInstr::DEFAULTS }))
     }
 
-    fn write_instr(&self, f: &mut BinWriter, _: &dyn Emitter, instr: &RawInstr) -> WriteResult {
+    fn write_instr(&self, f: &mut BinWriter, emitter: &dyn Emitter, instr: &RawInstr) -> WriteResult {
+        use crate::llir::instr_header_field as field;
         f.write_u16(instr.opcode)?;
-        f.write_u16(self.instr_size(instr) as _)?;
-        f.write_i16(instr.time as _)?;
+        f.write_u16(field(emitter, "instruction size", self.instr_size(instr) as i64)?)?;
+        f.write_i16(field(emitter, "time", instr.time as i64)?)?;
         f.write_u16(instr.param_mask as _)?;
         f.write_all(&instr.args_blob)?;
         Ok(())
